@@ -283,10 +283,81 @@ fn curve_sweep(ctx: &Ctx, st: &mut Stats) -> Vec<Violation> {
     out
 }
 
+/// "Storage twins": a Yuv<u8> frame and a Yuv<u16> frame that carry the same config label (bit depth above 8 included:
+/// the constructor accepts any depth for 8-bit storage), decoded one after the other on the same thread, in both
+/// orders. The u16 frame has at least 2^depth pixels and uses its whole code range. Per-thread tables keyed by the
+/// config but sized by the sample type would be indexed out of bounds by the second decode.
+fn twins_once(depth: u8, full: bool, u8_first: bool, mi: usize) -> Result<(), String> {
+    let c = crate::api::cfg(crate::oracle::STD_MC[mi % 7], TC::BT1886, yuvxyb::ColorPrimaries::BT709, depth, full, (0, 0));
+    let max = (1u32 << depth) - 1;
+    let n16 = ((1usize << depth).max(512)).div_ceil(64) * 64 + 64;
+    let small: Vec<[u16; 3]> = (0..512usize).map(|i| [(i % 256) as u16, ((i * 7) % 256) as u16, ((i * 13 + 5) % 256) as u16]).collect();
+    let big: Vec<[u16; 3]> = (0..n16).map(|i| [(i as u32 % (max + 1)) as u16, ((i as u32 * 7 + 3) % (max + 1)) as u16, (max - (i as u32 % (max + 1))) as u16]).collect();
+    let d8 = || -> Result<(), String> {
+        let y = Yuv::<u8>::new(crate::api::frame444::<u8>(&small, 32, 16, 0, 0), c).map_err(|e| format!("{e:?}"))?;
+        let _ = yuvxyb::Rgb::try_from(&y);
+        let _ = yuvxyb::LinearRgb::try_from(&y);
+        Ok(())
+    };
+    let d16 = || -> Result<(), String> {
+        let y = Yuv::<u16>::new(crate::api::frame444::<u16>(&big, 64, n16 / 64, 0, 0), c).map_err(|e| format!("{e:?}"))?;
+        let _ = yuvxyb::Rgb::try_from(&y);
+        let _ = yuvxyb::LinearRgb::try_from(&y);
+        Ok(())
+    };
+    let r = catch(|| {
+        if u8_first {
+            let _ = d8();
+            let _ = d16();
+        } else {
+            let _ = d16();
+            let _ = d8();
+            let _ = d16();
+        }
+    });
+    match r {
+        Err(p) if is_hook_panic(&p) => Err(p),
+        _ => Ok(()),
+    }
+}
+
+fn storage_twins(ctx: &Ctx, st: &mut Stats) -> Vec<Violation> {
+    let mut jobs = Vec::new();
+    for depth in 8u8..=16 {
+        for full in [false, true] {
+            for u8_first in [true, false] {
+                jobs.push((depth, full, u8_first));
+            }
+        }
+    }
+    par_sweep(ctx, st, jobs.len() as u64, |lo, hi, st| {
+        for j in lo..hi {
+            let (depth, full, u8_first) = jobs[j as usize];
+            let case = json!({"prop":"C07","part":"twins","depth":depth,"full":full,"u8_first":u8_first,"m":j});
+            journal(|| case.clone());
+            // a fresh thread per history: per-thread state starts empty
+            let r = std::thread::scope(|sc| sc.spawn(|| twins_once(depth, full, u8_first, j as usize)).join());
+            match r {
+                Ok(Ok(())) => {}
+                Ok(Err(m)) => return Some(Violation { signature: format!("C07:hook:{}", hook_site(&m)), message: format!("storage twins (Yuv<u8> and Yuv<u16> frames labelled {depth} bit, decoded one after the other on one thread): {m}"), case }),
+                Err(_) => {}
+            }
+            st.evaluations += 1;
+            st.nontrivial_by_construction += 1;
+            st.class("storage_twin_histories", 1);
+        }
+        None
+    })
+}
+
 pub fn run(ctx: &Ctx, st: &mut Stats) -> Vec<Violation> {
     // the checked profile is ~10x slower: a quarter of the cases there
     let scale = if cfg!(debug_assertions) { 4 } else { 1 };
     let mut v = run_proptest(ctx, st, "histories", ctx.cases(120_000, 2_000_000) / scale, strategy, check);
+    if !v.is_empty() {
+        return v;
+    }
+    v.extend(storage_twins(ctx, st));
     if !v.is_empty() {
         return v;
     }
@@ -335,6 +406,13 @@ pub fn replay(v: &Value) -> Result<(), String> {
             let f = FloatCase::from_json(v).ok_or("bad float case")?;
             check(&Case::Float(f), &mut Stats::new()).map_err(|v| v.message)
         }
+        Some("twins") => {
+            let depth = v.get("depth").and_then(|x| x.as_u64()).ok_or("depth")? as u8;
+            let full = v.get("full").and_then(|x| x.as_bool()).unwrap_or(false);
+            let u8_first = v.get("u8_first").and_then(|x| x.as_bool()).unwrap_or(true);
+            let m = v.get("m").and_then(|x| x.as_u64()).unwrap_or(0) as usize;
+            std::thread::spawn(move || twins_once(depth, full, u8_first, m)).join().map_err(|_| "panicked".to_string())?
+        }
         Some("curve") => {
             let t = crate::oracle::tc_from_name(v.get("transfer").and_then(|s| s.as_str()).ok_or("transfer")?).ok_or("transfer")?;
             let d = if v.get("dir").and_then(|s| s.as_str()) == Some("to_linear") { Dir::ToLinear } else { Dir::ToGamma };
@@ -357,4 +435,4 @@ pub fn replay(v: &Value) -> Result<(), String> {
     }
 }
 
-pub const RULE: &str = "cases = call histories generated by proptest: (geometry) a frame specification (luma 1..=12 and {31..65,130}; chroma plane sizes independent of luma: required, +-1, 0..=13, double; per-plane decimation 0..=2; padding 0..=17; Plane::new / Plane::from_slice; u8/u16; depth 8..16; 6 subsamplings) -> Yuv::new -> if accepted all six readers (Rgb/LinearRgb/Xyb, by reference and by value) -> one writer (&Rgb|Rgb|LinearRgb|Xyb, cfg2) -> Yuv<u8|u16> whose subsampling is drawn independently of the image size -> decode of the produced frame; (float) an image of any float type filled from special values (q/sNaN of both signs, +-inf, +-3e38, +-MAX, +-MIN_POSITIVE, subnormals, +-0), random bit patterns or in-range data, pushed through 1..4 conversions chosen over the whole conversion graph with a supported config; plus a strided (quick) / complete (thorough) enumeration of all f32 bit patterns through every curve direction. Oracle: no panic from a verif hook placed before an unchecked operation, no abnormal termination of the supervised child (std ub_checks in the checked profile), and an uncoverable frame (chroma plane smaller than ceil(luma/2^ss)) is rejected. Ordinary panics are counted, not reported here (C13). non-trivial = a geometry history that executed an unchecked site on a subsampled, padded or from_slice frame or was rejected as uncoverable, or a float history containing a non-finite value; distinct = by hash of the history";
+pub const RULE: &str = "cases = call histories generated by proptest: (geometry) a frame specification (luma 1..=12 and {31..65,130}; chroma plane sizes independent of luma: required, +-1, 0..=13, double; per-plane decimation 0..=2; padding 0..=17; Plane::new / Plane::from_slice; u8/u16; depth 8..16; 6 subsamplings) -> Yuv::new -> if accepted all six readers (Rgb/LinearRgb/Xyb, by reference and by value) -> one writer (&Rgb|Rgb|LinearRgb|Xyb, cfg2) -> Yuv<u8|u16> whose subsampling is drawn independently of the image size -> decode of the produced frame; (float) an image of any float type filled from special values (q/sNaN of both signs, +-inf, +-3e38, +-MAX, +-MIN_POSITIVE, subnormals, +-0), random bit patterns or in-range data, pushed through 1..4 conversions chosen over the whole conversion graph with a supported config; plus storage twins (a Yuv<u8> and a Yuv<u16> frame with the same config label, depth 8..16, the u16 frame with at least 2^depth pixels over its whole code range, decoded one after the other on one thread in both orders), plus a strided (quick) / complete (thorough) enumeration of all f32 bit patterns through every curve direction. Oracle: no panic from a verif hook placed before an unchecked operation, no abnormal termination of the supervised child (std ub_checks in the checked profile), and an uncoverable frame (chroma plane smaller than ceil(luma/2^ss)) is rejected. Ordinary panics are counted, not reported here (C13). non-trivial = a geometry history that executed an unchecked site on a subsampled, padded or from_slice frame or was rejected as uncoverable, or a float history containing a non-finite value; distinct = by hash of the history";
